@@ -238,12 +238,7 @@ def codecs(chk):
     G('codec', 'SegmentSelector', c_sel)
 
     # ---- Pcid::new
-    def c_pcid():
-        fn_ = 'instructions::tlb::Pcid::new'
-        outs = run1(chk, fn_, [BV.sym(16, 'v')])
-        exhaustive(chk, 'codec', 'Pcid::new', outs, {'v': 16},
-                   lambda a: ('ret', ('Ok', (a['v'],))) if a['v'] < 4096 else ('ret', ('Err', (a['v'],))), site=fn_site(I, fn_))
-    G('codec', 'Pcid::new', c_pcid)
+    G('codec', 'Pcid::new', lambda: pcid_codec(chk, I))
 
     # ---- MxCsr::default
     def c_mxcsr():
@@ -329,3 +324,11 @@ def dr7value(chk):
                 wb[base + 1] = (enc >> 1) & 1
                 chk.ob('codec', 'Dr7Value::%s<Dr%d>(%s)' % (set_, n, vn), fin is not None and same(fin, BV(64, wb)),
                        'final %r, expected bits %d..%d := %d and all others unchanged' % (fin, base, base + 1, enc))
+
+
+def pcid_codec(chk, I, rule='codec'):
+    """Pcid::new accepts exactly the 12-bit values (the representation invariant C16's PCID writes rely on)"""
+    fn_ = 'instructions::tlb::Pcid::new'
+    outs = run1(chk, fn_, [BV.sym(16, 'v')])
+    exhaustive(chk, rule, 'Pcid::new', outs, {'v': 16},
+               lambda a: ('ret', ('Ok', (a['v'],))) if a['v'] < 4096 else ('ret', ('Err', (a['v'],))), site=fn_site(I, fn_))
